@@ -5,6 +5,7 @@ package c17
 
 import (
 	"fmt"
+	"math"
 	"sort"
 	"sync"
 	"testing"
@@ -39,10 +40,10 @@ type Case struct {
 func genCase(t *rapid.T) Case {
 	var c Case
 	c.Docs = gen.Corpus(t, gen.CorpusOpts{MinDocs: 2, MaxDocs: 40})
-	withNested := rapid.IntRange(0, 5).Draw(t, "nested") == 5
+	withNested := rapid.IntRange(0, 2).Draw(t, "nested") == 2
 	if withNested {
 		for i := range c.Docs {
-			if rapid.IntRange(0, 2).Draw(t, "isnested") == 2 {
+			if rapid.IntRange(0, 2).Draw(t, "isnested") >= 1 {
 				n := rapid.IntRange(1, 3).Draw(t, "nn")
 				for j := 0; j < n; j++ {
 					toks := []model.Tok{{F: "_all_", V: ""}, {F: "_exists_", V: "spans.id"}, {F: "spans.id", V: fmt.Sprintf("s%d", rapid.IntRange(0, 5).Draw(t, "span"))}}
@@ -116,6 +117,13 @@ func genCase(t *rapid.T) Case {
 	nreq := rapid.IntRange(2, 5).Draw(t, "nreq")
 	for i := 0; i < nreq; i++ {
 		c.Reqs = append(c.Reqs, Req{R: gen.SearchReq(t, corpus, 3), Style: gen.Style(t), Aggs: gen.AggSpecs(t, 2)})
+	}
+	if withNested {
+		// tokens that only some of the entries of a document carry
+		for i := rapid.IntRange(1, 2).Draw(t, "nspanreq"); i > 0; i-- {
+			q := model.Lit("spans.id", model.Exact(fmt.Sprintf("s%d", rapid.IntRange(0, 5).Draw(t, "spanq"))))
+			c.Reqs = append(c.Reqs, Req{R: model.SearchReq{Q: q, From: 0, To: math.MaxInt64, Limit: 100, WithTotal: true, Asc: rapid.Bool().Draw(t, "spanasc")}, Style: gen.Style(t)})
+		}
 	}
 	return c
 }
